@@ -134,6 +134,77 @@ example :
     wireControls (writeMessage witC1 (9 : Nat) witPing).2 = wireControls witC1 ++ [(9, witPing)] :=
   writeMessage_control_roundtrip witC1 witC1_idle witC1_cap 9 (Or.inl rfl) witPing witPing_len
 
+open WS.ReaderDecodes WS.PairRoundtrip WS.SrcLaw
+
+/-- a 5000-byte binary payload 00 01 02 … (more than one write buffer: two frames) -/
+def witData : Bytes := (List.range 5000).map UInt8.ofNat
+def witData_len : witData.length = 5000 := by simp [witData]
+
+/-- the bytes `WriteMessage(Binary, witData)` appends to the wire of the client `witC1` (which already
+    sent "Hello", so the wire is not empty and the key index is 1) -/
+def witWire : Bytes := (writeMessage witC1 (2 : Nat) witData).2.wire.drop witC1.wire.length
+
+/-- two masked frames: 8 + 4096 and 8 + 904 bytes -/
+def witWire_len : witWire.length = 5016 := by decide +kernel
+
+/-- evaluated: first frame = binary, no FIN, MASK + 16-bit length 4096, second key of the key source -/
+example : witWire.take 9 = [0x02, 0xFE, 0x10, 0x00, 1, 2, 3, 4, 0x00 ^^^ 1] := by decide +kernel
+
+/-- a server-side idle reader (bufio size 4096, no read limit, one ping already handled) whose pending
+    bytes are exactly those bytes plus two trailing bytes (the header of a masked ping), delivered in three
+    transport chunks: 1000 bytes, 3000 bytes, the remaining 1016 + 2 -/
+def witRd : Conn :=
+  { w := newW true 4096 false false,
+    r := { isServer := true, nego := false, hlog := [.ping [7]],
+           buf := { size := 4096, buf := [],
+                    t := { chunks := [witWire.take 1000, (witWire.drop 1000).take 3000, witWire.drop 4000 ++ [0x89, 0x80]] },
+                    total := 5018 } } }
+
+def witRd_pending : witRd.r.buf.pending = witWire ++ [0x89, 0x80] := by
+  show [] ++ [witWire.take 1000, (witWire.drop 1000).take 3000, witWire.drop 4000 ++ [0x89, 0x80]].flatten = _
+  have h : witWire.drop 4000 = (witWire.drop 1000).drop 3000 := by rw [List.drop_drop]
+  simp only [List.flatten_cons, List.flatten_nil, List.nil_append, List.append_nil, h]
+  rw [← List.append_assoc ((witWire.drop 1000).take 3000), List.take_append_drop, ← List.append_assoc,
+    List.take_append_drop]
+
+def witRd_idle : ReaderIdle witRd :=
+  ⟨rfl, rfl, rfl, ⟨by decide, by decide, by decide +kernel, (by intro e h; cases h)⟩, by decide,
+    (by rw [witRd_pending, List.length_append, witWire_len]; decide),
+    (by intro id h; cases h), (by intro id h; cases h)⟩
+
+/-- non-vacuity of `round_trip` -/
+example : ∃ c1 rid, nextReader witRd = (.msg 2 rid false, c1) ∧
+      ∃ c2, readAll c1 rid 512 = ((witData, none), c2) ∧ ReaderIdle c2 ∧ c2.r.buf.pending = [0x89, 0x80] ∧
+        c2.r.hlog = witRd.r.hlog :=
+  round_trip witC1 witC1_idle 2 (Or.inr rfl) witData (by rw [witData_len]; decide) witRd witRd_idle (by decide +kernel)
+    [0x89, 0x80] witRd_pending (Or.inl rfl) (by decide) 512 (by decide)
+
+/-- evaluated on the model: NextReader announces a binary message with reader id 0, uncompressed … -/
+example : (match (nextReader witRd).1 with | .msg t rid z => t == 2 && rid == 0 && !z | _ => false) = true := by
+  decide +kernel
+
+/-- … and reading it to the end in 512-byte reads returns exactly the 5000 bytes and then end-of-message
+    (no error), leaving the two trailing bytes pending -/
+example : (match readAll (nextReader witRd).2 0 512 with
+    | ((out, e), c2) => out == witData && e.isNone && c2.r.buf.pending == [0x89, 0x80]) = true := by decide +kernel
+
+/-- non-vacuity of `writeMessage_frames`: the same client and message -/
+example : ∃ fs : List PFrame, MsgShape 2 fs ∧ dataPayload fs = witData ∧ ctlEvents fs = [] ∧
+      (writeMessage witC1 (2 : Nat) witData).2.wire = witC1.wire ++ encAll (!witC1.isServer) fs :=
+  writeMessage_frames witC1 witC1_idle 2 (Or.inr rfl) witData (by rw [witData_len]; decide)
+
+/-- evaluated: the frames are a non-final binary frame of 4096 bytes (key 01 02 03 04) and a final
+    continuation frame of 904 bytes (the key source wraps around to 37 fa 21 3d) -/
+example : (writeMessage witC1 (2 : Nat) witData).2.wire = witC1.wire ++ encAll (!witC1.isServer)
+    [⟨2, false, ⟨1, 2, 3, 4⟩, witData.take 4096⟩, ⟨0, true, ⟨0x37, 0xfa, 0x21, 0x3d⟩, witData.drop 4096⟩] :=
+  eq_of_beq (by decide +kernel)
+
+/-- a second instance of `writeMessage_frames` / `round_trip`'s writer side: a 300-byte text message from the
+    fresh client `witC` (one frame, 16-bit length form) -/
+example : ∃ fs : List PFrame, MsgShape 1 fs ∧ dataPayload fs = List.replicate 300 0x41 ∧ ctlEvents fs = [] ∧
+      (writeMessage witC (1 : Nat) (List.replicate 300 0x41)).2.wire = witC.wire ++ encAll (!witC.isServer) fs :=
+  writeMessage_frames witC witC_idle 1 (Or.inl rfl) _ (by rw [List.length_replicate]; decide)
+
 end NonVacuity
 
 end WS.Props.C01
